@@ -188,6 +188,15 @@ def _sample(ck: Check, repo: Repo, rb: Cls) -> None:
         ok = bool(par) and isinstance(par[0].slice, ast.Slice) and par[0].slice.lower is None and par[0].slice.step is None \
             and dotted(par[0].slice.upper) == "batch_size"
         ck.ob("C09.3", sample, par[0] if par else c, ok, "the batch is the first batch_size entries of the permutation (no duplicates)")
+    # every definition of the index array that reaches the storage read is such a prefix (no second source that may repeat an index)
+    reads = [x for x in walk_no_nested(sample.node) if isinstance(x, ast.Subscript) and isinstance(x.ctx, ast.Load) and dotted(x.value) == "self._storage" and isinstance(x.slice, ast.Name)]
+    for r in reads:
+        rn = cfg.node_of(r)
+        vals = [cfg.value_of_def(d, r.slice.id) for d in cfg.defs_reaching(rn, r.slice.id)] if rn is not None else []
+        okv = bool(vals) and all(isinstance(v, ast.Subscript) and any(v.value is c for c in perms) for v in vals)
+        bad = [short(v, 60) for v in vals if not (isinstance(v, ast.Subscript) and any(v.value is c for c in perms))]
+        ck.ob("C09.3", sample, r, okv, "every index array used to read the storage is a permutation prefix (distinct indices)",
+              detail=f"other index sources reach the read: {bad} — a batch may contain the same stored transition twice", construct="ReplayBuffer.sample: index sources of the storage read")
     ln = rb.methods.get("__len__")
     ok = ln is not None and any(isinstance(x, ast.Return) and dotted(x.value) == "self._size" for x in walk_no_nested(ln.node))
     ck.ob("C09.3", ln or sample, (ln or sample).node, ok, "__len__ reports the fill level", construct="__len__ -> self._size")
@@ -344,6 +353,19 @@ def _multi_agent(ck: Check, repo: Repo) -> None:
     ck.ob("C09.5", ro, rng if rng is not None else ro.node, okn,
           "the number of per-environment transitions is the length of an array leaf (dict / tuple observations are narrowed first, like the element code does)",
           detail=whyn, construct="_reorganize_dicts: number of environment entries")
+    # sampled rows are combined by a dtype-promoting constructor over ALL rows (mixed int / float rewards keep their values)
+    stf = cls.methods.get("stack_transitions")
+    if stf is None:
+        raise AnalysisError("MultiAgentReplayBuffer.stack_transitions not found")
+    combiners = [c for c in calls_in(stf.node, nested=True) if call_name(c) in ("np.array", "np.stack", "np.concatenate", "np.asarray", "numpy.array")
+                 and c.args and isinstance(c.args[0], (ast.ListComp, ast.Name, ast.List))]
+    prealloc = [c for c in calls_in(stf.node, nested=True) if call_name(c) in ("np.empty", "np.zeros", "np.ones", "np.full", "np.empty_like", "np.zeros_like")
+                and (get_kw(c, "dtype") is not None and any(isinstance(x, ast.Attribute) and x.attr == "dtype" for x in ast.walk(get_kw(c, "dtype"))) or call_name(c).endswith("_like"))]
+    ck.ob("C09.5", stf, prealloc[0] if prealloc else stf.node, len(combiners) >= 3 and not prealloc,
+          "MultiAgentReplayBuffer.stack_transitions combines the sampled rows with np.array / np.stack over all rows (a common dtype is chosen for the whole batch)",
+          detail=(f"`{short(prealloc[0], 70)}` allocates the batch with the dtype of one row and fills it row by row: when the first sampled reward is an int, float rewards of the "
+                  "other rows are truncated (0.75 -> 0)") if prealloc else f"{len(combiners)} combining calls found (dict, tuple and plain fields expected)",
+          construct="stack_transitions: how rows are combined")
     sv = cls.methods["save_to_memory_vect_envs"]
     zips = [n for n in walk_no_nested(sv.node) if isinstance(n, ast.For) and isinstance(n.iter, ast.Call) and call_name(n.iter) == "zip"]
     ok = bool(zips) and any(call_name(c) == "self._add" and c.args and isinstance(c.args[0], ast.Starred) and dotted(c.args[0].value) == dotted(zips[0].target)
@@ -412,6 +434,34 @@ def _advanced_fields(repo: Repo, cls: Cls, fn: Fn, depth: int = 2) -> Dict[str, 
     return out
 
 
+def _whole_resets(repo: Repo, cls: Cls, fn: Fn, depth: int = 1) -> Dict[str, str]:
+    """self fields that fn re-initialises as a whole on every path: `self.f = <value>` or `self.f.clear()` as a top-level statement of the function
+    body (not inside a loop or branch — a loop bounded by the fill level runs zero times once the fill level has been reset), also through self.* callees."""
+    out: Dict[str, str] = {}
+    for st in fn.node.body:
+        if isinstance(st, ast.Assign):
+            for t in st.targets:
+                for tt in (t.elts if isinstance(t, ast.Tuple) else [t]):
+                    d = dotted(tt)
+                    if d.startswith("self.") and d.count(".") == 1:
+                        out[d[5:]] = f"assigned in {fn.qualname}"
+        elif isinstance(st, ast.AnnAssign) and st.value is not None:
+            d = dotted(st.target)
+            if d.startswith("self.") and d.count(".") == 1:
+                out[d[5:]] = f"assigned in {fn.qualname}"
+        elif isinstance(st, ast.Expr) and isinstance(st.value, ast.Call):
+            c = st.value
+            d = call_name(c)
+            if last_attr(c) == "clear" and dotted(c.func.value).startswith("self.") and dotted(c.func.value).count(".") == 1:
+                out[dotted(c.func.value)[5:]] = f"cleared in {fn.qualname}"
+            elif depth > 0 and d.startswith("self.") and d.count(".") == 1:
+                callee = repo.find_method(cls, d[5:])
+                if callee is not None and callee is not fn:
+                    for k, v in _whole_resets(repo, cls, callee, depth - 1).items():
+                        out.setdefault(k, v)
+    return out
+
+
 def _reset(ck: Check, repo: Repo) -> None:
     names = ["ReplayBuffer", "MultiStepReplayBuffer", "PrioritizedReplayBuffer"]
     n_ob = 0
@@ -431,7 +481,7 @@ def _reset(ck: Check, repo: Repo) -> None:
             cl = c.methods.get("clear")
             if cl is None:
                 continue
-            for k, v in _advanced_fields(repo, cls, cl, 1).items():
+            for k, v in _whole_resets(repo, cls, cl).items():
                 reset.setdefault(k, v)
             calls_super = any(isinstance(x.func, ast.Attribute) and x.func.attr == "clear" and isinstance(x.func.value, ast.Call)
                               and call_name(x.func.value) == "super" for x in calls_in(cl.node))
@@ -454,6 +504,9 @@ def _reset(ck: Check, repo: Repo) -> None:
 _RBF = "agilerl/components/replay_buffer.py"
 _MAF = "agilerl/components/multi_agent_replay_buffer.py"
 VARIANTS = [
+    ("ma-batch-typed-after-first-row", _MAF, "            ts = np.array(ts)\n            if ts.ndim == 1:", "            first = np.asarray(ts[0])\n            batch = np.empty((len(ts), *first.shape), dtype=first.dtype)\n            for i, item in enumerate(ts):\n                batch[i] = item\n            ts = batch\n            if ts.ndim == 1:", "fire", "C09.5"),
+    ("sample-small-batches-with-replacement", _RBF, "        indices = torch.randperm(self.size)[:batch_size]\n        samples: TensorDict = self._storage[indices]", "        if batch_size * 8 <= self.size:\n            indices = torch.randint(self.size, (batch_size,))\n        else:\n            indices = torch.randperm(self.size)[:batch_size]\n        samples: TensorDict = self._storage[indices]", "fire", "C09.3"),
+    ("per-clear-resets-leaves-in-a-size-bounded-loop", _RBF, "        self.sum_tree = SumSegmentTree(self.sum_tree.capacity)\n        self.min_tree = MinSegmentTree(self.min_tree.capacity)\n", "        for idx in range(len(self)):\n            self.sum_tree[idx] = 0.0\n            self.min_tree[idx] = float(\"inf\")\n", "fire", "C09.6"),
     ("wrap-off-by-one", _RBF, "self._storage[: _n_transitions - n] = data[n:]", "self._storage[: _n_transitions - n + 1] = data[n:]", "fire", "C09.1"),
     ("wrap-src-gap", _RBF, "self._storage[: _n_transitions - n] = data[n:]", "self._storage[: _n_transitions - n - 1] = data[n + 1 :]", "fire", "C09.1"),
     ("wrap-cond-ge", _RBF, "        if end > self.max_size:", "        if end > self.max_size + 1:", "fire", "C09.1"),
